@@ -132,6 +132,11 @@ def run(ctx):
         return dict({"type": "object", "properties": {"host": {"type": "string"}, "port": port}, "required": ["host", "port"]}, **ann)
     ann = [collide_root(conn(5432), conn(), required=True), collide_root(conn(), conn(5432)), collide_root(conn(title="A"), conn(title="B", description="other")),
            collide_root(conn(80), conn(443), key="w")]
+    # required keys contributed by a composite: a branch that carries only `required`, a referenced base, at a property and at an item position
+    cbase = {"type": "object", "properties": {"id": {"type": "string"}, "label": {"type": "string"}, "size": {"type": "integer"}}, "required": ["id"]}
+    for lst in ([{"$ref": "#/$defs/Base"}, {"required": ["label"]}], [{"$ref": "#/$defs/Base"}, {"type": "object", "required": ["label", "size"]}],
+                [{"required": ["size"]}, {"$ref": "#/$defs/Base"}]):
+        sysm.append({"type": "object", "$defs": {"Base": cbase}, "properties": {"strict": {"allOf": lst}, "list": {"type": "array", "items": {"allOf": lst}}}, "required": ["strict"]})
     sysm = sysm + ann
     sysm = sysm + shared + [collide_root(ob(["p"]), ob(["q"]), required=True), collide_root(ob(["p", "q"]), ob(["p"])), collide_root(ob(["q"]), ob(["p", "q"]), key="w")]
     n = 30 if ctx.tier == "quick" else 400
